@@ -184,6 +184,17 @@ def _json_default(o):
 def replay_file(path, profiles):
     doc = json.load(open(path))
     prof = profiles[doc["profile"]]
+    if doc.get("realdisk"):
+        from . import realdisk
+        res = realdisk.one(prof, doc["seed"], doc.get("how", "flush"))
+        r = {"error": None, "violation": None}
+        if res and "violation" in res:
+            sig = "realdisk_crash_recovery|%s|%s" % (doc.get("how", "flush"), res["violation"])
+            r["violation"] = {"signature": sig, "msg": res["msg"], "oracle": "realdisk_crash_recovery",
+                              "site": doc.get("how", "flush"), "cls": res["violation"], "step": None}
+        elif res and "problem" in res:
+            r["error"] = res["problem"]
+        return doc, r
     saved = prof.masks
     prof.masks = list(doc.get("masks", []))
     try:
